@@ -2,6 +2,10 @@
 from ..core import Report
 from . import runlevel
 
+# case kinds of corpus/ entries (failing inputs of past regressions) that this module replays on every run
+CORPUS_KINDS = ('ctl_run',)
+
+
 
 def stalling_noisy_specs(ctx):
     """Noisy small-unit objectives: improvements and history differences are of the order of tol_fun, so polls that succeed on the
